@@ -9,14 +9,14 @@ TECH = "deterministic simulation with fault injection: seeded search over operat
 CHECKS = {
     "C02": dict(
         level="exploration",
-        text="Seeded deterministic simulation of every hash context type (30 variants incl. keyed/odd-size/dynamic BLAKE2): up to 4 forked handles, scheduler-chosen interleaving of update/update_mut/fork/reset/reset_with_key/finalize_reset/finalize with block-boundary fragmentation and misaligned slices; every finalize and every still-live handle at end of run is compared with the library's own one-call digest of the model's byte log. All sequences of <=3 boundary operations per variant are enumerated first; the deciding step is the random search (1.5M runs quick, 100M thorough). Sampling, not proof.",
+        text="Seeded deterministic simulation of every hash context type (30 variants incl. keyed/odd-size/dynamic BLAKE2): up to 4 forked handles, scheduler-chosen interleaving of update/update_mut/fork/reset/reset_with_key/finalize_reset/finalize with block-boundary fragmentation and misaligned slices; every finalize and every still-live handle at end of run is compared with the library's own one-call digest of the model's byte log. All sequences of <=3 boundary operations per variant are enumerated first; the deciding step is the random search (1.5M runs quick, 100M thorough). The same split / clone / finalize-and-reset statement is also run on contexts whose BLAKE2 byte counter or SHA-1/SHA-2/RIPEMD-160 length counter was preset through hooks H1/H4 next to a word boundary (scenarios ctrwrap, lenwrap: fragmented history vs one call under the same preset), a state real data only reaches after 2^29..2^64 bytes. BLAKE2 const-size contexts are constructed through both documented routes (Context::new[_keyed] and the Blake2b/Blake2s marker types). Sampling, not proof.",
         ref="DESIGN.md §4.1",
         note="Trusted: the harness (PRNG, byte-log model, shrinker) and the library's one-call digest path as ground truth (a consistently wrong digest is C01's business, deliberately). Real code: all cryptoxide::hashing contexts.",
         technique=TECH + "; oracle = one-call digest of the model log",
     ),
     "C03": dict(
         level="exploration",
-        text="The block counter is the stream's clock; faults are clock jumps (public seek for ChaCha/XChaCha, counter-preset hook for ChaChaOriginal/Salsa/XSalsa and for the SSE2 and portable engines driven through hook H3) to values next to 2^32-1 and to low-word carries, followed by fragmented process/process_mut histories across the boundary. Every output byte is compared with an independent RFC 8439 / Bernstein block-function model at the absolute block index, and the counter getter with ceil(position/64) after every operation. Key, nonce, rounds and key length are seeded input sampling and labelled as such. 1.5M runs quick, 100M thorough.",
+        text="The block counter is the stream's clock; faults are clock jumps (public seek for ChaCha/XChaCha, counter-preset hook for ChaChaOriginal/Salsa/XSalsa and for the SSE2 and portable engines driven through hook H3) to values next to 2^32-1 and to low-word carries, followed by fragmented process/process_mut histories across the boundary. Every output byte is compared with an independent RFC 8439 / Bernstein block-function model at the absolute block index, and the counter getter must name the block the stream stands in or the next one (either bookkeeping is accepted; the keystream is what the property constrains). Jump targets include the last three blocks of a 64-bit-counter stream; histories there are clamped to stop at the end of the stream. Key, nonce, rounds and key length are seeded input sampling and labelled as such. 1.5M runs quick, 100M thorough.",
         ref="DESIGN.md §4.2",
         note="Trusted: the harness's scalar ChaCha/Salsa/HChaCha/HSalsa model (unit-tested against RFC 8439 §2.3.2 and the XChaCha draft vector, and agreeing with the library on every run of the unchanged tree), hooks H2/H3. Does not cross 2^64 blocks (outside any specified domain).",
         technique=TECH + "; oracle = independent keystream model + counter invariant through a hook getter",
@@ -30,7 +30,7 @@ CHECKS = {
     ),
     "C05": dict(
         level="exploration",
-        text="Poly1305 under every delivery: the message reaches the object as any sequence of input fragments (staging-buffer paths: partial+partial, partial completed exactly, partial then many blocks), with forks mid-message and result/raw_result into dirty oversized buffers; tags are compared with an independent big-integer model of RFC 8439 §2.5. Key classes (random, all-ones, r in {0,1,2}, unclamped r) and message classes (every length 0..=80 enumerated in 4 split styles, all-0xff and RFC 8439 A.3 wrap-around blocks) are part of the generator; the 'accumulator has a second representative above p' probe must fire. 2M runs quick, 150M thorough.",
+        text="Poly1305 under every delivery: the message reaches the object as any sequence of input fragments (staging-buffer paths: partial+partial, partial completed exactly, partial then many blocks), with forks mid-message and result/raw_result into dirty oversized buffers; tags are compared with an independent big-integer model of RFC 8439 §2.5. Key classes (random, all-ones, r in {0,1,2}, unclamped r) and message classes (every length 0..=80 enumerated in 4 split styles, all-0xff and RFC 8439 A.3 wrap-around blocks) are part of the generator; the 'accumulator has a second representative above p' probe must fire. The scenario runs in the default build and in the force-32bits build, each judged against the same model. 2M+0.5M runs quick, 150M+20M thorough.",
         ref="DESIGN.md §4.4",
         note="Trusted: the harness's 320-bit integer Poly1305 model (unit-tested against RFC 8439 §2.5.2 and A.3 #5). Key/message classes are input sampling; the simulator adds the delivery dimension and the fork.",
         technique=TECH + "; oracle = independent big-integer Poly1305",
@@ -65,7 +65,7 @@ CHECKS = {
     ),
     "C14": dict(
         level="fault_enumeration",
-        text="Signer -> hostile channel -> verifier, plus a Byzantine sender. For every sampled honest (seed, message) the complete catalogue is enumerated: untouched (must accept); all 512 signature bit flips, all 256 public-key bit flips, every/sampled message bit, truncate/extend, S+kL for k=1..15, another signer's key, another message's signature (must reject: an accepted one would be a forgery). Adversarial triples are judged by an INDEPENDENT Ed25519 model written from RFC 8032 on plain 256-bit integers (model::ed25519; unit-tested against RFC 8032 test vectors, base-point order and torsion orders): the honest triple itself, random (key, signature) pairs, canonical non-point keys, mixed-order keys A+T (T of order 2/4/8) with a signature produced by the real signer over those key bytes (valid iff the torsion part cancels), boundary values of S (0, 1, L-1, L, L+1, 2^252, ...), special encodings of R (the 8 torsion points, non-canonical identity encodings, random), and the small-order-key forgeries with canonical and non-canonical R whose verdict is also known in closed form. Where the property text does not fix the verdict (non-canonical key encodings; keys with a torsion component for which 'h' reduced mod L or not gives different answers) the model says 'unspecified' and the run does not judge. ~970 verifications per run; 2k runs quick, 120k thorough.",
+        text="Signer -> hostile channel -> verifier, plus a Byzantine sender. For every sampled honest (seed, message) the complete catalogue is enumerated: untouched (must accept); all 512 signature bit flips, all 256 public-key bit flips, every/sampled message bit, truncate/extend, S+kL for k=1..15, another signer's key, another message's signature (must reject: an accepted one would be a forgery). Adversarial triples are judged by an INDEPENDENT Ed25519 model written from RFC 8032 on plain 256-bit integers (model::ed25519; unit-tested against RFC 8032 test vectors, base-point order and torsion orders): the honest triple itself, random (key, signature) pairs, canonical non-point keys, mixed-order keys A+T (T of order 2/4/8) with a signature produced by the real signer over those key bytes (valid iff the torsion part cancels), boundary values of S (0, 1, L-1, L, L+1, 2^252, ...), special encodings of R (the 8 torsion points, non-canonical identity encodings, random), crafted equations with S from the boundary family around L / 2^252 / 2L / 8L, honest signatures made from an UNCLAMPED extended secret (signature_extended + extended_to_public, 6 scalar classes; must verify and must satisfy the model), and the small-order-key forgeries with canonical and non-canonical R whose verdict is also known in closed form. Where the property text does not fix the verdict (non-canonical key encodings; keys with a torsion component for which 'h' reduced mod L or not gives different answers) the model says 'unspecified' and the run does not judge. ~970 verifications per run; 2k runs quick, 120k thorough.",
         ref="DESIGN.md §4.9 and §10",
         note="Trusted: the harness's integer Ed25519 model and the library's SHA-512 (a wrong hash is C01). Triples are sampled (catalogue enumerated per sample), so this is evidence, not proof, that verify accepts exactly the triples satisfying the equation. Non-canonical encodings of the PUBLIC KEY are recorded but not judged.",
         technique=TECH + "; channel-fault catalogue enumerated per sampled signature; verdict oracle = independent RFC 8032 model (closed-form for forgery-hard alterations)",
@@ -79,7 +79,7 @@ CHECKS = {
     ),
     "C17": dict(
         level="exploration",
-        text="Cross-build replay across {default 64-bit limbs, --features force-32bits}. 'The library compiles' is checked for real (path dependency, no lint capping): a build failure is a violation with the compiler output as replay artefact. Then both binaries execute the same seeds of sigchannel (Ed25519 keygen/sign/verify verdict vector over the whole channel catalogue incl. S+kL and small-order forgeries), x25519hs (two-party handshake with substituted edge-value u-coordinates, raw curve25519/curve25519_base, ed25519::exchange) and arithprog (seeded straight-line programs over the public Fe/Scalar/Ge API inside the documented operand discipline); transcripts are diffed run by run, divergences minimised with the two binaries as oracle.",
+        text="Cross-build replay across {default 64-bit limbs, --features force-32bits}. 'The library compiles' is checked for real (path dependency, no lint capping): a build failure is a violation with the compiler output as replay artefact. Then both binaries execute the same seeds of sigchannel (Ed25519 keygen/sign/verify verdict vector over the whole channel catalogue incl. S+kL and small-order forgeries), x25519hs (two-party handshake with substituted edge-value u-coordinates, raw curve25519/curve25519_base, ed25519::exchange) and arithprog (seeded straight-line programs over the public Fe/Scalar/Ge API inside the documented operand discipline; scalar decoders and wide reductions are fed boundary families around multiples of L and sparse 512-bit values); transcripts are diffed run by run, divergences minimised with the two binaries as oracle.",
         ref="DESIGN.md §4.11",
         note="arithprog is seeded program generation executed in two builds and diffed (nothing scheduled or faulted) and the evidence says so. Restricted to the API subset common to both backends; scalar::muladd is crate-private and reached through ed25519::signature only.",
         technique="deterministic simulation replayed across the two limb backends: same seeded workloads in 2 builds, transcript equality, ddmin with a two-binary oracle; plus 'it compiles'",
